@@ -94,6 +94,13 @@ def r2_consumers(ctx, chk, rule="C13.2"):
                 continue
             folds = classify(L)
             banded = [(v, fo) for v, fo in folds.items() if fo is not None and getattr(fo, "band", False)]
+            tband = [(v, fo) for v, fo in folds.items() if fo is not None and fo.kind == "ARGSET" and getattr(fo, "ties", None) == "band" and not banded]
+            if tband:
+                v, fo = tband[0]
+                chk.violation(rule, where, "%s.%s lists ties of `%s` by `%s`, a comparison within a tolerance: that relation is not transitive, so which successors are listed together "
+                              "depends on the order in which the transitions are written" % (cls, m, v, show(fo.tie_cond)), expected="exact comparison of (rounded) keys",
+                              found=show(fo.tie_cond), construct="%s.%s tolerance ties" % (cls, m))
+                continue
             if banded:
                 v, fo = banded[0]
                 chk.violation(rule, where, "%s.%s keeps a running optimum `%s` under the tolerance-band comparison `%s`: the relation is not transitive, so which successors are selected depends on the order in which the transitions are written" % (cls, m, v, show(getattr(fo, "cond_text", fo.cond))),
